@@ -12,7 +12,7 @@ for n in sorted(os.listdir(SEED)):
     first = ''
     for p, v in m.get('checks', {}).items():
         if v.get('caught') and v.get('first'):
-            f = v['first'][0]; first = f.split('replay=')[-1].split('/')[-1][:60]; break
+            f = v['first'][0]; first = f.split('replay=')[-1].split('/')[-1].split(' ')[0][:60]; break
     rows.append(f"| {n} | {m['property']} | {', '.join(caught) or '—'} | {', '.join(missed) or '—'} | {first} | {m.get('note', '')} |")
 print('| seeded change | breaks | caught by quick check (VIOLATION lines) | evaluated, not caught | first replay | note |\n|---|---|---|---|---|---|')
 print('\n'.join(rows))
